@@ -320,8 +320,8 @@ def exec_case(kind, payload):
 def run(ctx):
     from mc.core import pmap
 
-    depth = 7 if ctx.thorough else 5
-    forced = 4 if ctx.thorough else 3
+    depth = 8 if ctx.thorough else 6
+    forced = 5 if ctx.thorough else 4
     bfs(ctx, "direct-driver", run_history, depth, forced, "history", chunk=400)
     # second driver with real with-statements
     hs = _well_nested_histories(5 if ctx.thorough else 4)
